@@ -226,6 +226,48 @@ def run(fx, tier):
                         ok = True
         v.check(ok, 'R-DOM', 'replies::clear_pending_pubrels [%s]' % f.tu, 'aborts exactly the waiters whose code is PUBREL',
                 key='C04:R-DOM:clear_pending_pubrels', where=f.file)
+    v.rule('R-OWN', 'who may complete a parked reply handler, and with what')
+    waiter_completion_rules(fx, v, 'C04')
+    # framing state vs connection: when the read reports a reconnect (try_again) every byte buffered from the OLD
+    # connection is discarded before reading from the new one — otherwise the tail of an interrupted packet is joined
+    # with the head of the retransmitted one and a corrupted message is delivered and acknowledged
+    from flow import canon
+    n_reset = 0
+    for f in fx.functions(cls='assemble_op', name='operator()'):
+        if f.tag != 'on_read':
+            continue
+        v.saw(f)
+        dom = f.dominators()
+        for b, i, l, c in f.calls():
+            if callee_name(c) != 'perform' or callee_cls(c) != 'assemble_op':
+                continue
+            on_reconnect = False
+            for cond, pol, gb in edge_guards(f, b):
+                cm = comparison(origin(f, cond), pol)
+                if cm and cm[0] == '==' and contains([cm[1], cm[2]], lambda n: n.get('ce') == 'try_again' or n.get('n') == 'try_again'):
+                    on_reconnect = True
+            if not on_reconnect:
+                continue
+            n_reset += 1
+            emptied = False
+            for bb, ii, ll, cc in f.calls():
+                if cc.get('op') == '=' and cc.get('args') and is_member_of_this(cc['args'][0], '_data_span'):
+                    rhs = f.resolve(cc['args'][1]) if isinstance(cc['args'][1], dict) else None
+                    while isinstance(rhs, dict) and rhs.get('k') in ('ctor', 'init') and len(rhs.get('args', [])) == 1:
+                        rhs = f.resolve(rhs['args'][0])
+                    if isinstance(rhs, dict) and rhs.get('k') in ('ctor', 'init') and len(rhs.get('args', [])) == 2:
+                        a0, a1 = origin(f, rhs['args'][0]), origin(f, rhs['args'][1])
+                        same = canon(a0) == canon(a1)
+                        before = (bb == b and ii < i) or (bb != b and bb in dom.get(b, set()))
+                        # and only on the reconnect edge or later (a reset that dominates the guard would also do)
+                        if same and before:
+                            emptied = True
+            v.check(emptied, 'R-DOM', 'assemble_op::on_read:reconnect-discards-buffer@%s [%s]' % (l, f.tu),
+                    'on the try_again edge the buffered span is emptied before the next read is started: bytes of the lost '
+                    'connection are never joined with bytes of the new one', key='C04:R-DOM:assemble_op:reconnect-discards-buffer',
+                    where='%s:%s' % (f.path_file(), l))
+    if n_reset == 0 and not v.violations:
+        raise AnalysisBroken('assemble_op::on_read: no re-read on the reconnect edge found')
     v.expect_min('R-CGRAPH', 40, 'paths × rules')
     v.expect_min('R-FLOW', 40, 'id/message provenance sites')
     v.expect_min('R-DOM', 10, 'replies/session structure × TUs')
@@ -258,3 +300,60 @@ def _qos_known(p):
     if excluded == {0, 1}:
         return 2
     return None
+
+
+def waiter_completion_rules(fx, v, prop):
+    """Who may end an exchange that waits in the replies registry, and how (shared by C02 and C04).
+    Every completion of a parked reply handler inside class `replies` is one of:
+      dispatch()               the acknowledgement itself (error code and span of the arrival)
+      resend_unanswered()      try_again  (the owner re-sends)
+      cancel_unanswered()      operation_aborted — reachable only from client_service::cancel()
+      async_wait_reply()       operation_aborted for the waiter being REPLACED (same code and id)
+      clear_pending_pubrels()  operation_aborted, only for waiters whose code is PUBREL (receiver side)
+    Anything else that completes a waiter ends somebody's exchange without an acknowledgement."""
+    from acks import ec_arg_class
+    from callgraph import CallGraph
+    allowed = {'dispatch': None, 'resend_unanswered': 'try_again', 'cancel_unanswered': 'operation_aborted',
+               'async_wait_reply': 'operation_aborted', 'clear_pending_pubrels': 'operation_aborted'}
+    n = 0
+    for f in fx.fns:
+        if f.cls != 'replies' or f.path_file() != 'boost/mqtt5/impl/replies.hpp':
+            continue
+        for b, i, l, c in f.calls():
+            if callee_cls(c) != 'reply_handler' or callee_name(c) not in ('complete', 'complete_post'):
+                continue
+            n += 1
+            owner = f.n if not f.lam else f.q.split('::replies::')[-1].split('(')[0]
+            a = c['args'][1] if callee_name(c) == 'complete_post' else c['args'][0]
+            cls_ = ec_arg_class(None, origin(f, a))
+            e = cls_[1] if cls_ and cls_[0] == 'literal' else None
+            inst = 'replies::%s completes a waiter @%s [%s]' % (owner, l, f.tu)
+            if owner not in allowed:
+                v.fail('R-OWN', inst, 'a parked reply handler is completed outside the five sanctioned places',
+                       key='%s:R-OWN:replies:%s:completes-waiter' % (prop, owner), where='%s:%s' % (f.path_file(), l))
+                continue
+            want = allowed[owner]
+            ok = want is None or e == want
+            why = 'completes with %s (sanctioned: %s)' % (e, want or 'the arrival\'s own error code')
+            if owner == 'clear_pending_pubrels':
+                only_pubrel = False
+                for cond, pol, gb in edge_guards(f, b):
+                    cm = comparison(origin(f, cond), pol)
+                    if cm and cm[0] == '==' and (enum_of(cm[2]) == 'pubrel' or enum_of(cm[1]) == 'pubrel'):
+                        only_pubrel = True
+                ok = ok and only_pubrel
+                why += '; only waiters whose code is PUBREL: %s' % only_pubrel
+            v.check(ok, 'R-OWN', inst, why, key='%s:R-OWN:replies:%s' % (prop, owner), where='%s:%s' % (f.path_file(), l))
+    if n < 5:
+        raise AnalysisBroken('replies: only %d waiter completions found' % n)
+    cg = CallGraph(fx)
+    for caller, nn, line in cg.callers_of(lambda c, n_: c.cls == 'replies' and c.n == 'cancel_unanswered'):
+        ok = caller.cls == 'client_service' and caller.n == 'cancel'
+        v.check(ok, 'R-OWN', '%s::%s calls cancel_unanswered [%s]' % (caller.cls, caller.n, caller.tu),
+                'all waiters are aborted only by client_service::cancel()', key='%s:R-OWN:cancel_unanswered<-%s::%s' % (prop, caller.cls, caller.n),
+                where='%s:%s' % (caller.path_file(), line))
+    for caller, nn, line in cg.callers_of(lambda c, n_: c.cls == 'replies' and c.n == 'clear_pending_pubrels'):
+        ok = caller.cls == 'client_service' and caller.n == 'update_session_state'
+        v.check(ok, 'R-OWN', '%s::%s calls clear_pending_pubrels [%s]' % (caller.cls, caller.n, caller.tu),
+                'receiver-side PUBREL waiters are dropped only by update_session_state()', key='%s:R-OWN:clear_pending_pubrels<-%s::%s' % (prop, caller.cls, caller.n),
+                where='%s:%s' % (caller.path_file(), line))
